@@ -184,6 +184,12 @@ class Run:
             self.prot.datagram_received(a["data"], SOURCES[a["src"]], a["mc"])
         elif a["kind"] == "lost":
             self.prot.connection_lost(None)
+        elif a["kind"] == "start":
+            # the application registers its listeners, does other set-up while offers already arrive, and only then starts
+            # discovery (or stops and starts it again): what is known and what listeners were told stays as it is
+            if getattr(self.prot.discovery, "task", None) is not None:
+                self.prot.discovery.stop()
+            self.prot.discovery.start()
         elif a["kind"] == "crowd":
             # a busy segment: very many other nodes are heard (each asks for a service nobody here offers)
             for i in range(a["n"]):
@@ -505,8 +511,11 @@ def random_history(rng):
         if rng.random() < 0.5 else None
     hot_reg = rng.choice(("ALL", "ALL", "F1", rng.choice(list(REGS))))
     crowd_at = rng.randrange(2, n) if rng.random() < 0.08 else None
+    start_at = rng.randrange(1, n) if rng.random() < 0.3 else None
     for step in range(n):
         r = rng.random()
+        if step == start_at and b.add(dict(kind="start"), rng.choice(("new", "same", "same+1"))):
+            seq.append(("start", "x"))
         if step == crowd_at:
             # everything known so far, then a crowd of other nodes, then (mostly) one of the known sources again - rebooted
             if b.add(dict(kind="crowd", n=rng.choice((300, 1100))), rng.choice(("new", "same"))):
@@ -606,6 +615,8 @@ def run(spec, ctx):
         count_placements(ctx, seq)
         if any(k == "crowd" for k, _pl in seq):
             ctx.count("histories_with_a_crowd_of_other_senders")
+        if any(k == "start" for k, _pl in seq):
+            ctx.count("histories_in_which_discovery_is_started_midway")
         ctx.case(("rand", init, seq, tuple(a["kind"] == "msg" and (a["src"], a["mc"], tuple(a["entries"]), bool(a.get("reboot")))
                                             for _t, _r, a in b.script)), nt,
                  sample=dict(initial_registrations=list(init), length=len(seq),
